@@ -24,6 +24,8 @@ ASSUMPTIONS = ['the fault-free string is accepted (checked on every case, a reje
 FAULTS = ['dangling', 'dangling', 'duplicate', 'duplicate', 'undefined', 'annot_base', 'annot_coarse', 'annot_atom']
 EXC = {'two_eq': 'SyntaxError', 'too_many': 'SyntaxError', 'non_numeric': 'TypeError'}
 
+FUZZ = dict(campaigns=8, runs=2500)
+
 
 def budget(tier):
     if tier == 'thorough':
@@ -37,13 +39,15 @@ def _used_rids(ast):
 
 def _fresh_rid(R, ast, pct):
     used = _used_rids(ast)
-    pool = [r for r in (range(10, 100) if pct else range(1, 10)) if r not in used]
+    pool = [r for r in (([0] * 20 + list(range(10, 100))) if pct else ([0, 0, 0] + list(range(1, 10)))) if r not in used]
     if not pool:
         pool = [r for r in range(10, 100) if r not in used]
     return R.choice(pool)
 
 
 def _marker(rid, pct):
+    if pct and rid < 10:
+        return '%0' + str(rid)
     return ('%' + str(rid)) if (pct or rid >= 10) else str(rid)
 
 
